@@ -11,7 +11,7 @@ SIMPLE = ["k_zigzag", "k_mask", "k_width_from_max_int", "k_read_varint", "k_enco
 FUNCS_UNDER_CONTRACT = ["zigzag_long", "long_zigzag", "zigzag_int", "_mask_for_bits", "width_from_max_int", "read_unsigned_var_int",
                         "encode_unsigned_varint", "NumpyIO.get_pointer", "NumpyIO.read", "NumpyIO.read_byte", "NumpyIO.read_int",
                         "NumpyIO.read_long", "NumpyIO.write", "NumpyIO.write_byte", "NumpyIO.write_int", "NumpyIO.write_long",
-                        "NumpyIO.seek", "NumpyIO.tell", "NumpyIO.so_far", "read_rle", "read_bitpacked1", "read_bitpacked"]
+                        "NumpyIO.seek", "NumpyIO.tell", "NumpyIO.so_far", "read_rle", "read_bitpacked1", "read_bitpacked", "delta_read_bitpacked"]
 
 
 def _task(t):
@@ -24,12 +24,14 @@ def _task(t):
             res = K.read_bitpacked_closure(arg[0], arg[1], timeout)
         elif kind == "bp0":
             res = K.read_bitpacked_closure(arg[0], arg[1], timeout, zero_groups=True)
+        elif kind == "delta":
+            res = K.delta_bitpacked_closure(arg[0], arg[1], timeout)
         else:
             raise ValueError(kind)
         return (kind, arg, res.order, res.d, res.kind, None, time.time() - t0)
     except K.Unsupported as ex:   # the kernel's current source is outside the engine's subset: out of reach, undecided
-        return (kind, arg, ["%s%s.out_of_reach" % (arg if kind == "simple" else "read_bitpacked", "" if kind == "simple" else list(arg))],
-                {"%s%s.out_of_reach" % (arg if kind == "simple" else "read_bitpacked", "" if kind == "simple" else list(arg)):
+        return (kind, arg, ["%s%s.out_of_reach" % (arg if kind == "simple" else kind, "" if kind == "simple" else list(arg))],
+                {"%s%s.out_of_reach" % (arg if kind == "simple" else kind, "" if kind == "simple" else list(arg)):
                  [("unknown", None, 0.0, "engine", str(ex))]}, {}, None, time.time() - t0)
     except Exception as ex:       # engine failure inside one kernel: reported as such by the caller
         import traceback
@@ -45,6 +47,7 @@ def run_all(tier="quick"):
                 continue            # callers pass itemsize 1 only with a uint8 output (width <= 8): precondition
             tasks.append(("bp", (w, s), timeout))
     tasks += [("bp0", (w, 4), timeout) for w in (1, 8, 24)]
+    tasks += [("delta", (w, lv), timeout) for w in range(1, 65) for lv in (0, 1)]
     ctx = mp.get_context("fork")
     with cf.ProcessPoolExecutor(max_workers=min(16, os.cpu_count() or 4), mp_context=ctx) as ex:
         return list(ex.map(_task, tasks))
